@@ -183,3 +183,90 @@ package core
 //@   assert before call updateGroupDeltaRequestNoLock: #masked-delta: $arg0 == quotaName && $arg3 == 0 && (forall n v1.ResourceName :: val($arg1, n) == (has(quotaInfo.CalculateInfo.Max, n) ? (newPod != nil ? g_podReq(newPod, gateOverhead(), n) : 0) - (oldPod != nil ? g_podReq(oldPod, gateOverhead(), n) : 0) : 0))
 //@   ensures #atmostonce: calls("updateGroupDeltaRequestNoLock") <= 1
 //@   modifies inferred
+
+// ---------- migrate / re-parent (C01) ----------
+
+// MigratePod: the source is settled while the pod is still in (and, if so, assigned in) the source's cache;
+// the target is charged after the pod entered its cache with the same assigned flag.
+//@ spec func quotasDistinct(gqm *GroupQuotaManager) bool = forall k1 string, k2 string :: {has(gqm.quotaInfoMap, k1), has(gqm.quotaInfoMap, k2)} has(gqm.quotaInfoMap, k1) && has(gqm.quotaInfoMap, k2) && k1 != k2 ==> gqm.quotaInfoMap[k1] != gqm.quotaInfoMap[k2] && gqm.quotaInfoMap[k1].PodCache != gqm.quotaInfoMap[k2].PodCache
+//@ func (*GroupQuotaManager).MigratePod [C01]
+//@   requires quotasOK(gqm) && quotasDistinct(gqm) && pod != nil
+//@   requires has(gqm.quotaInfoMap, in)
+//@   assert before call updatePodRequestNoLock#1: #release-request: $arg0 == out && $arg1 == pod && $arg2 == nil && (has(gqm.quotaInfoMap, out) ==> isCached(gqm, out, pod) == old(isCached(gqm, out, pod)))
+//@   assert before call updatePodUsedNoLock#1: #release-used: $arg0 == out && $arg1 == pod && $arg2 == nil && isAssignedIn(gqm, out, pod)
+//@   assert before call updatePodRequestNoLock#2: #charge-request: $arg0 == in && $arg1 == nil && $arg2 == pod && (has(gqm.quotaInfoMap, in) ==> isCached(gqm, in, pod)) && (in != out ==> !isCached(gqm, out, pod))
+//@   assert before call updatePodUsedNoLock#2: #charge-used: $arg0 == in && $arg1 == nil && $arg2 == pod && old(isAssignedIn(gqm, out, pod))
+//@   ensures #released: old(isAssignedIn(gqm, out, pod)) ==> calls("updatePodUsedNoLock") == 2
+//@   ensures #unassigned: !old(isAssignedIn(gqm, out, pod)) ==> calls("updatePodUsedNoLock") == 0
+//@   ensures #requests: calls("updatePodRequestNoLock") == 2
+
+// Re-parenting re-adds exactly what the deleted incarnation held: its own pods' request/used with the self flag,
+// and, for a parent group, its children's contribution = ChildRequest - SelfRequest (children are accumulated by their
+// max-limited requests in ChildRequest) resp. Used - SelfUsed, without the self flag.
+//@ func (*GroupQuotaManager).updateQuotaNoLockWhenParentChange [C01]
+//@   requires gqm != nil && newQuota != nil && gqm.quotaInfoMap != nil && gqm.runtimeQuotaCalculatorMap != nil && gqm.quotaTopoNodeMap != nil
+//@   requires forall k string :: {has(gqm.quotaInfoMap, k)} has(gqm.quotaInfoMap, k) ==> gqm.quotaInfoMap[k] != nil
+//@   assert before call updateGroupDeltaRequestNoLock#1: #self-request: $arg0 == newQuotaInfo.Name && $arg3 == 0 && (forall n v1.ResourceName :: val($arg1, n) == val(oldQuotaInfo.CalculateInfo.SelfRequest, n) && val($arg2, n) == val(oldQuotaInfo.CalculateInfo.SelfNonPreemptibleRequest, n))
+//@   assert before call updateGroupDeltaRequestNoLock#2: #child-request: oldQuotaInfo.IsParent && $arg0 == newQuotaInfo.Name && $arg3 == 0 - 1 && (forall n v1.ResourceName :: val($arg1, n) == val(oldQuotaInfo.CalculateInfo.ChildRequest, n) - val(oldQuotaInfo.CalculateInfo.SelfRequest, n))
+//@   assert before call updateGroupDeltaUsedNoLock#1: #self-used: $arg0 == newQuotaInfo.Name && $arg3 == 0 && (forall n v1.ResourceName :: val($arg1, n) == val(oldQuotaInfo.CalculateInfo.SelfUsed, n) && val($arg2, n) == val(oldQuotaInfo.CalculateInfo.SelfNonPreemptibleUsed, n))
+//@   assert before call updateGroupDeltaUsedNoLock#2: #child-used: oldQuotaInfo.IsParent && $arg0 == newQuotaInfo.Name && $arg3 == 0 - 1 && (forall n v1.ResourceName :: val($arg1, n) == val(oldQuotaInfo.CalculateInfo.Used, n) - val(oldQuotaInfo.CalculateInfo.SelfUsed, n) && val($arg2, n) == val(oldQuotaInfo.CalculateInfo.NonPreemptibleUsed, n) - val(oldQuotaInfo.CalculateInfo.SelfNonPreemptibleUsed, n))
+//@   assert before call deleteQuotaNoLock: #delete-first: calls("updateGroupDeltaRequestNoLock") == 0 && calls("updateGroupDeltaUsedNoLock") == 0
+
+// ---------- runtime quota sharing (C02) ----------
+
+// floor(w*T/W): the Hamilton base share of a node with weight w
+//@ spec func hbase(w int64, T int64, W int64) int = tdiv(w * T, W)
+
+// Largest-remainder split. Integers are mathematical here (uint64/int64 conversions are identities under the stated bounds).
+// Not expressible in the spec language: the exact conservation  sum(result) == totalRes  (needs a sum over the slice).
+// `modifies inferred`: the body writes only elements of slices it allocates itself (deltas, remainders); the element type of
+// `remainders` is function-local and cannot be named in a frame invariant, so the frame is the inferred write-set
+// (elements of []int64 and []remainderEntry; no quotaNode field).
+//@ func computeHamiltonDeltas [C02]
+//@   requires totalRes < 9223372036854775808
+//@   requires forall j int :: 0 <= j && j < len(nodes) ==> nodes[j] != nil && nodes[j].sharedWeight <= totalSharedWeight
+//@   ensures #len: len(result) == len(nodes)
+//@   ensures #fresh: fresh(result)
+//@   ensures #early: totalSharedWeight <= 0 || totalRes <= 0 ==> (forall j int :: 0 <= j && j < len(nodes) ==> result[j] == 0)
+//@   ensures #zero: forall j int :: 0 <= j && j < len(nodes) && nodes[j].sharedWeight <= 0 ==> result[j] == 0
+//@   ensures #share: totalSharedWeight > 0 && totalRes > 0 ==> (forall j int :: 0 <= j && j < len(nodes) && nodes[j].sharedWeight > 0 ==> result[j] == hbase(nodes[j].sharedWeight, totalRes, totalSharedWeight) || result[j] == hbase(nodes[j].sharedWeight, totalRes, totalSharedWeight) + 1)
+//@   ensures #nonneg: forall j int :: 0 <= j && j < len(nodes) ==> result[j] >= 0
+//@   modifies inferred
+//@   option nopanic all
+//@   loop 1 invariant 0 <= $i && $i <= len(nodes) && len(deltas) == len(nodes) && fresh(deltas) && fresh(remainders)
+//@   loop 1 invariant forall j int :: 0 <= j && j < len(nodes) ==> deltas[j] == (j < $i && nodes[j].sharedWeight > 0 ? hbase(nodes[j].sharedWeight, totalRes, totalSharedWeight) : 0)
+//@   loop 1 invariant len(remainders) <= $i
+//@   loop 1 invariant forall k int :: 0 <= k && k < len(remainders) ==> 0 <= remainders[k].index && remainders[k].index < $i && nodes[remainders[k].index].sharedWeight > 0
+//@   loop 1 invariant forall k int, l int :: 0 <= k && k < l && l < len(remainders) ==> remainders[k].index < remainders[l].index
+//@   loop 2 invariant 0 <= i && len(deltas) == len(nodes) && fresh(deltas)
+//@   loop 2 invariant #budget: residual >= 0 && residual + i == totalRes - distributed
+//@   loop 2 invariant forall k int :: 0 <= k && k < len(remainders) ==> 0 <= remainders[k].index && remainders[k].index < len(nodes) && nodes[remainders[k].index].sharedWeight > 0
+//@   loop 2 invariant #distinct: forall k int, l int :: 0 <= k && k < l && l < len(remainders) ==> remainders[k].index != remainders[l].index
+//@   loop 2 invariant #untouched: forall k int :: i <= k && k < len(remainders) ==> deltas[remainders[k].index] == hbase(nodes[remainders[k].index].sharedWeight, totalRes, totalSharedWeight)
+//@   loop 2 invariant forall j int :: 0 <= j && j < len(nodes) && nodes[j].sharedWeight <= 0 ==> deltas[j] == 0
+//@   loop 2 invariant forall j int :: 0 <= j && j < len(nodes) && nodes[j].sharedWeight > 0 ==> deltas[j] == hbase(nodes[j].sharedWeight, totalRes, totalSharedWeight) || deltas[j] == hbase(nodes[j].sharedWeight, totalRes, totalSharedWeight) + 1
+
+// One water-filling round (recursive; the contract is used at the recursive call, termination is not proved).
+// Callers pass nodes that are still below their request. For EVERY quotaNode object: runtimeQuota never decreases and never
+// exceeds max(old runtimeQuota, request); members end at most at their request ("request-capped": a node whose request
+// is met gets exactly its request); only members of `nodes` change. `modifies inferred`: the write-set is
+// quotaNode.runtimeQuota plus elements of slices ([]*quotaNode by append, and what computeHamiltonDeltas allocates).
+// Not expressible (needs a sum): the amounts handed out add up to totalRes minus what is carried into the next round.
+// requires #int64 is the type range of the int64 parameter: integers are mathematical in this mode, so the recursive
+// call cannot re-establish it for the local toPartitionResource (a sum of surpluses).
+//@ func (*quotaTree).iterationForRedistribution [C02]
+//@   requires #int64: totalRes < 9223372036854775808
+//@   requires forall j int :: 0 <= j && j < len(nodes) ==> nodes[j] != nil && 0 <= nodes[j].sharedWeight && nodes[j].sharedWeight <= totalSharedWeight
+//@   requires #below: forall j int :: 0 <= j && j < len(nodes) ==> nodes[j].runtimeQuota <= nodes[j].request
+//@   ensures #monotone: forall q *quotaNode :: q.runtimeQuota >= old(q.runtimeQuota)
+//@   ensures #capped: forall q *quotaNode :: q.runtimeQuota <= max(old(q.runtimeQuota), q.request)
+//@   ensures #met: forall j int :: 0 <= j && j < len(nodes) ==> old(nodes[j]).runtimeQuota <= old(nodes[j]).request
+//@   ensures #members: forall q *quotaNode :: q.runtimeQuota != old(q.runtimeQuota) ==> (exists j int :: 0 <= j && j < len(nodes) && old(nodes[j]) == q)
+//@   modifies inferred
+//@   loop 1 invariant 0 <= $i && $i <= len(nodes) && len(deltas) == len(nodes) && fresh(needAdjustQuotaNodes)
+//@   loop 1 invariant forall j int :: 0 <= j && j < len(nodes) ==> nodes[j] == old(nodes[j])
+//@   loop 1 invariant forall j int :: 0 <= j && j < len(nodes) ==> nodes[j].runtimeQuota <= nodes[j].request
+//@   loop 1 invariant forall k int :: 0 <= k && k < len(needAdjustQuotaNodes) ==> needAdjustQuotaNodes[k] != nil && 0 <= needAdjustQuotaNodes[k].sharedWeight && needAdjustQuotaNodes[k].sharedWeight <= needAdjustTotalSharedWeight
+//@   loop 1 invariant forall k int :: 0 <= k && k < len(needAdjustQuotaNodes) ==> (exists j int :: 0 <= j && j < $i && nodes[j] == needAdjustQuotaNodes[k])
+//@   loop 1 invariant forall q *quotaNode :: old(q.runtimeQuota) <= q.runtimeQuota && q.runtimeQuota <= max(old(q.runtimeQuota), q.request)
+//@   loop 1 invariant forall q *quotaNode :: q.runtimeQuota != old(q.runtimeQuota) ==> (exists j int :: 0 <= j && j < $i && nodes[j] == q)
